@@ -297,6 +297,11 @@ func (p *proxyConn) tunnel(name string, res *http.Response, crw io.ReadWriteClos
 		return err
 	}
 
+	// The request has been read, its read deadline does not apply to the tunnel.
+	if deadlineErr := p.conn.SetReadDeadline(time.Time{}); deadlineErr != nil {
+		log.Error(context.TODO(), "can't clear read deadline", "error", deadlineErr)
+	}
+
 	ctx := res.Request.Context()
 
 	log.Debug(ctx, "switched protocols, proxying traffic", "name", name)
